@@ -380,20 +380,15 @@ def execute_linting_on_paths(
     """
     files, dirs = separate_files_and_dirs(path_objs)
 
-    violations = []
+    # One pass over every target: cross-file rules (duplicate code, repeated string sets) must see
+    # all files of the run together, and a file reached through two targets is linted once
+    from src.orchestrator.core import _collect_files_fast
 
-    # Lint files
-    if files:
-        if parallel:
-            violations.extend(orchestrator.lint_files_parallel(files))
-        else:
-            violations.extend(orchestrator.lint_files(files))
-
-    # Lint directories
+    all_files = list(files)
     for dir_path in dirs:
-        if parallel:
-            violations.extend(orchestrator.lint_directory_parallel(dir_path, recursive=recursive))
-        else:
-            violations.extend(orchestrator.lint_directory(dir_path, recursive=recursive))
+        all_files.extend(_collect_files_fast(dir_path, recursive))
+    all_files = list({file_path.resolve(): file_path for file_path in all_files}.values())
 
-    return violations
+    if parallel:
+        return orchestrator.lint_files_parallel(all_files)
+    return orchestrator.lint_files(all_files)
